@@ -311,6 +311,10 @@ def make_case(rng):
             bk = {}
         if bk:
             bk.pop('min_burst_duration', None)
+        if bk is not None and rng.random() < 0.25:
+            # the duration-based minimum together with the caller's own (nested) filter options
+            bk['min_burst_duration'] = float(rng.choice([1, 2])) / lo
+            bk['filter_kwargs'] = {'n_cycles': int(rng.choice([3, 5]))}
     fek = gen.gen_find_extrema_kwargs(rng, fs, lo)       # None, {}, dicts with / without 'filter_kwargs' (n_cycles | n_seconds), boundary, pad
     if fek is not None and 'boundary' in fek and fek['boundary'] > 10:
         fek['boundary'] = 4
